@@ -103,4 +103,70 @@ MovesUnion(h, kn) ==
              \o (IF rc = 2 THEN PreUnion(h[2], 2) ELSE <<>>)
              \o <<MUnion(lc, rc, FALSE), MUnion(lc, rc, TRUE)>>
 
+---------------------------------------------------------------------------
+(* C09: a reference is created (kn = every identity that was ever visible), *)
+(* a history of verbs follows, then the reference is used.                  *)
+IntIds(t, S) == SetToSortSeq({c \in S : c \in Scope(t) /\ t.ty[c] = "int"}, <)
+
+RefHistory(t, i) ==
+    LET a == ColOf(t, "a")
+        b == ColOf(t, "b")
+        g == ColOf(t, "g")
+    IN  (IF a # <<>> /\ b # <<>> THEN <<MRename(i, <<[c |-> Col(a[1]), n |-> "b"], [c |-> Col(b[1]), n |-> "a"]>>)>> ELSE <<>>)  \* swap
+        \o (IF Len(t.vis) >= 2 THEN MapS(a, LAMBDA c : MDrop(i, <<Col(c)>>)) ELSE <<>>)
+        \o MapS(a, LAMBDA c : MMutate(i, <<KV("a", Fn2("add", Col(c), LitI(10)))>>))       \* overwrite
+        \o (IF NameFree(t, "a") /\ b # <<>> THEN <<MMutate(i, <<KV("a", Fn2("mul", Col(b[1]), LitI(-1)))>>)>> ELSE <<>>)  \* re-create the old name
+        \o (IF NameFree(t, "a") /\ g # <<>> THEN <<MRename(i, <<[c |-> Col(g[1]), n |-> "a"]>>)>> ELSE <<>>)   \* rename onto a hidden column's name
+        \o MapS(b, LAMBDA c : MArrange(i, <<Ord(Col(c), TRUE, "last")>>))
+        \o MapS(b, LAMBDA c : MFilter(i, <<Fn2("gt", Col(c), LitI(0))>>))
+        \o <<MAlias(i, t.name, TRUE), MAlias(i, "s", FALSE), MCollect(i, TRUE), MCollect(i, FALSE)>>
+        \o (IF g # <<>> THEN <<MGroupBy(i, <<Col(g[1])>>, FALSE)>> ELSE <<>>)
+        \o (IF t.part # <<>> /\ b # <<>> THEN <<MSummarize(i, <<KV("s", Agg("sum", Col(b[1])))>>)>> ELSE <<>>)
+
+RefProbes(h, i, kn) ==
+    LET t == h[i]
+        ids == SetToSortSeq({c \in kn : c < 100 \/ c \in Scope(t)}, <)
+        allInt == SelectSeq(ids, LAMBDA c : \E q \in DOMAIN h : c \in Scope(h[q]) /\ h[q].ty[c] = "int")
+    IN  MapS(Take(allInt, 5), LAMBDA c : MMutate(i, <<KV("probe", Col(c))>>))
+        \o MapS(Take(allInt, 4), LAMBDA c : MGetName(i, c))
+        \o <<MMutate(i, <<KV("probe", CN("a"))>>), MMutate(i, <<KV("probe", CN("b"))>>)>>
+        \o MapS(Take(allInt, 2), LAMBDA c : MFilter(i, <<Fn1("is_not_null", Col(c))>>))
+        \o (IF t.part = <<>> THEN MapS(Take(allInt, 2), LAMBDA c : MSelect(i, <<Col(c)>>)) ELSE <<>>)
+
+MovesRef(h, kn) ==
+    LET i == IF Len(h) = 2 THEN 1 ELSE Len(h)
+        lastIsProbe == i > 1 /\ "probe" \in VisNames(h[i])
+    IN  IF lastIsProbe THEN <<>>
+        ELSE RefHistory(h[i], i) \o RefProbes(h, i, kn)
+             \o (IF Len(h) >= 2 /\ h[2].name = "t2" /\ ~IsJoined(h[i]) /\ h[i].part = <<>>
+                    /\ "a" \in VisNames(h[i]) /\ h[i].root \cap h[2].root = {}
+                 THEN <<MJoin(i, 2, <<Fn2("eq", Col(ByName(h[i])["a"]), Col(21))>>, "left", "")>> ELSE <<>>)
+
+---------------------------------------------------------------------------
+(* C16: re-rooting verbs, self-joins of a derived table with its alias, old / new references *)
+MovesReroot(h, kn) ==
+    LET i == Len(h)
+        t == h[i]
+        a == ColOf(t, "a")
+        b == ColOf(t, "b")
+        g == ColOf(t, "g")
+        prev == IF i >= 2 THEN i - 1 ELSE 0
+        selfOn == IF prev # 0 /\ a # <<>> /\ "a" \in VisNames(h[prev]) /\ h[prev].root \cap t.root = {}
+                  THEN <<MJoin(prev, i, <<Fn2("eq", Col(ByName(h[prev])["a"]), Col(a[1]))>>, "inner", ""),
+                         MJoin(prev, i, <<Fn2("eq", Col(ByName(h[prev])["a"]), Col(a[1]))>>, "left", "_r")>> ELSE <<>>
+    IN  IF IsJoined(t) \/ "probe" \in VisNames(t) THEN RefProbes(h, i, kn)
+        ELSE <<MAlias(i, "s", FALSE), MAlias(i, t.name, TRUE), MCollect(i, TRUE), MCollect(i, FALSE)>>
+             \o selfOn
+             \o (IF prev # 0 THEN <<MTransfer(i, prev), MTransfer(prev, i)>> ELSE <<>>)
+             \o MapS(b, LAMBDA c : MMutate(i, <<KV("b", Fn2("add", Col(c), LitI(1)))>>))       \* hidden column before re-rooting
+             \o MapS(a, LAMBDA c : MRename(i, <<[c |-> Col(c), n |-> "k"]>>))
+             \o (IF Len(t.vis) >= 2 THEN MapS(b, LAMBDA c : MDrop(i, <<Col(c)>>)) ELSE <<>>)
+             \o MapS(g, LAMBDA c : MGroupBy(i, <<Col(c)>>, FALSE))
+             \o MapS(b, LAMBDA c : MFilter(i, <<Fn2("gt", Col(c), LitI(0))>>))
+             \o (IF t.part # <<>> /\ b # <<>> THEN <<MSummarize(i, <<KV("s", Agg("sum", Col(b[1])))>>),
+                                                     MMutate(i, <<KV("w", Agg("sum", Col(b[1])))>>)>> ELSE <<>>)
+             \o RefProbes(h, i, kn)
+
+SrcHeapsOne == [k \in DOMAIN SrcPairs |-> <<SrcTables[SrcPairs[k][1]]>>]
+
 =============================================================================
